@@ -304,6 +304,12 @@ class Models(object):
                 for p, v in ex.getattr_v(path, args[0], nm):
                     out.append((p, VBool(not isinstance(v, Raise))))
                 return out
+        if (obj is any or obj is all) and len(args) == 1 and not kw:
+            items = ex.iter_concrete(path, args[0])
+            terms = [z3.simplify(ex.truth_term(path, x)) for x in items]
+            if obj is any:
+                return [(path, VBool(z3.simplify(z3.Or(*terms)) if terms else z3.BoolVal(False)))]
+            return [(path, VBool(z3.simplify(z3.And(*terms)) if terms else z3.BoolVal(True)))]
         if obj is min or obj is max:
             if len(args) == 2 and all(isinstance(a, VInt) for a in args):
                 a, b = args
@@ -1066,6 +1072,20 @@ class Models(object):
             if oka and len(ca) == 0:
                 raise Unsupported('replace of empty pattern')
             return [(path, mk(self.replace_all(ex, path, s.t, args[0].t, args[1].t)))]
+        if name in ('partition', 'rpartition') and len(args) == 1 and same(args[0]) and name == 'partition':
+            oks, sep = concrete_of(args[0])
+            if oks and len(sep) > 0:
+                out = []
+                pt, pf = ex.branch(path, z3.Contains(s.t, args[0].t))
+                if pt is not None:
+                    idx = z3.IndexOf(s.t, args[0].t, 0)
+                    n = z3.Length(s.t)
+                    out.append((pt, VTuple([mk(z3.simplify(z3.SubString(s.t, 0, idx))), args[0],
+                                            mk(z3.simplify(z3.SubString(s.t, idx + len(sep), n)))])))
+                if pf is not None:
+                    empty = mk(z3.StringVal(''))
+                    out.append((pf, VTuple([s, empty, empty])))
+                return out
         if name == 'isdigit' and not args:
             return [(path, VBool(z3.InRe(s.t, z3.Plus(RE_DIGIT))))]
         if name == 'count' and len(args) == 1:
